@@ -42,6 +42,16 @@ func c11Floats(x []int64) []float64 {
 	return f
 }
 
+// c11Changed: the float slice no longer holds the values it was made from
+func c11Changed(f []float64, x []int64) bool {
+	for i, v := range x {
+		if math.Float64bits(f[i]) != math.Float64bits(float64(v)) {
+			return true
+		}
+	}
+	return false
+}
+
 func c11ZList(x []int64) hx.Sx {
 	it := make([]hx.Sx, len(x))
 	for i, v := range x {
@@ -278,6 +288,15 @@ func c11UCase(o *hx.Out, x1, x2 []int64, alt int, stream string) {
 	f1, f2 := c11Floats(x1), c11Floats(x2)
 	untied, tied := st.ExactLimits()
 	out, p, isNum := c11Outcome(f1, f2, alt)
+	if c11Changed(f1, x1) || c11Changed(f2, x2) {
+		// the call wrote to its arguments: shown again as a history on one array (kind 4,
+		// c11hist.go), where the caller's values after the call are part of the case
+		o.Count("utest:arguments-changed-by-the-call")
+		if o.Dist["utest:arguments-changed-by-the-call"] <= 20 {
+			joined := append(append([]int64(nil), x1...), x2...)
+			c11HistCase(o, joined, []c11Win{{[2]int{0, len(x1)}, [2]int{len(x1), len(joined)}, alt}}, "arguments-changed:"+stream)
+		}
+	}
 	legacy := hx.L()
 	if alt == 0 {
 		legacy = c11Legacy(f1, f2)
@@ -460,7 +479,7 @@ func c11Compositions(N int, f func([]int)) {
 
 func genC11(o *hx.Out, r *hx.Rng, tier string, replay string) error {
 	thorough := tier == "thorough"
-	o.Rule = "kind utest: every pair of multisets over the ordered alphabet {0,1,2,3} with sizes up to the bound (presented in shuffled order) x 3 alternatives, empty samples, random samples with sizes 20-60 on both sides of the 25/50 switches (untied, heavily tied, lightly tied, all equal, shifted); a deterministic sweep over every pooled size N = 18..50 in the tied exact regime (all near-even splits, a subset of the others; big runs, several runs, light ties) and N = 18..36 untied; untied samples with BOTH sizes in 30..50 (per seed one balanced pair 38..50 each, one equal pair 34..50, one unbalanced pair 30..33 vs 47..50 in either order, one free pair; C(n1+n2,n1) > 2^64 for all) with the statistic placed, by random adjacent exchanges, at 8 positions of the null distribution (both extreme tails, both 2.5-4 sigma tails, both 0.1-1.5 sigma shoulders, the centre and its neighbour) x 3 alternatives, and the same distributions through UDist.CDF/PMF at these points, U + 1/2 and the usual end/centre/random points; constant samples given by their sizes (n1 and n2 copies of one value, up to 165146+165146 values: must be ErrSamplesEqual); kind udist: every tie vector (composition of N) x every n1 through UDist.CDF/PMF at every half-integer plus quarter points, untied UDist for all small n1,n2. non-trivial = not an error case; distinct by input"
+	o.Rule = "kind utest: every pair of multisets over the ordered alphabet {0,1,2,3} with sizes up to the bound (presented in shuffled order) x 3 alternatives, empty samples, random samples with sizes 20-60 on both sides of the 25/50 switches (untied, heavily tied, lightly tied, all equal, shifted); a deterministic sweep over every pooled size N = 18..50 in the tied exact regime (all near-even splits, a subset of the others; big runs, several runs, light ties) and N = 18..36 untied; untied samples with BOTH sizes in 30..50 (per seed one balanced pair 38..50 each, one equal pair 34..50, one unbalanced pair 30..33 vs 47..50 in either order, one free pair; C(n1+n2,n1) > 2^64 for all) with the statistic placed, by random adjacent exchanges, at 8 positions of the null distribution (both extreme tails, both 2.5-4 sigma tails, both 0.1-1.5 sigma shoulders, the centre and its neighbour) x 3 alternatives, and the same distributions through UDist.CDF/PMF at these points, U + 1/2 and the usual end/centre/random points; constant samples given by their sizes (n1 and n2 copies of one value, up to 165146+165146 values: must be ErrSamplesEqual); kind udist: every tie vector (composition of N) x every n1 through UDist.CDF/PMF at every half-integer plus quarter points, untied UDist for all small n1,n2. kind history: series of calls whose two samples are windows of ONE backing array of the caller (series[:k] vs series[k:] for every k in rising, falling and random order, either window first; x[:4] vs x[2:]; overlapping, nested, identical, disjoint windows; longer series whose adjacent windows fall on both sides of the 50 / 25 switches), the array compared with its original values after every call and every call judged on the original values; kind concurrent: batches of 12 different sample pairs (exact tied / untied, normal approximation tied / untied) run sequentially and then by 8, 12, 16 goroutines at once, GOMAXPROCS 4, 8, 16 in a plain binary and GOMAXPROCS 4, 8 in a binary built with -race (a process that dies counts as a panic of every job): every concurrent outcome equals the sequential one, race detector silent. non-trivial = not an error case; distinct by input"
 	nmax := 4
 	if thorough {
 		nmax = 5
@@ -837,7 +856,8 @@ func genC11(o *hx.Out, r *hx.Rng, tier string, replay string) error {
 		}
 		c11DCaseAt(o, n1, n2, nil, qs, "large-untied")
 	}
-	return nil
+	// (j) histories over one backing array and concurrent calls (c11hist.go)
+	return c11GenHist(o, r.Split(), tier)
 }
 
 // c11UntiedWithU builds two samples of distinct integers (n1 and n2 of them, no
